@@ -158,7 +158,7 @@ func rule121(r *core.Run, ctx *oblig.Ctx) {
 			k := key(name, "loop update of the "+what, sprintf("edge#%d", i))
 			okE := false
 			if ok && b.X == ssa.Value(ph) {
-				if c := isInnerRead(b.Y); c != nil && (c.Block() == pred || c.Block().Dominates(pred)) {
+				if c := isInnerRead(b.Y); c != nil && (c.Block() == pred || core.BlockDominates(c.Block(), pred)) {
 					if (ph == nPhi && b.Op == token.ADD) || (ph == szPhi && b.Op == token.SUB) {
 						okE = true
 					}
@@ -399,7 +399,7 @@ func rule123(r *core.Run, ctx *oblig.Ctx) {
 				if s.Has("const:X-Amz-Decoded-Content-Length") && s.Has("call:strconv.ParseInt") {
 					// this edge comes from the streaming arm
 					pred := ph.Block().Preds[i]
-					if nc.Block().Dominates(pred) || nc.Block() == pred {
+					if core.BlockDominates(nc.Block(), pred) || nc.Block() == pred {
 						okSize = true
 					}
 				}
